@@ -18,45 +18,52 @@ from fractions import Fraction
 from vp.core import Check, Failure, load_corpus
 
 META = dict(
-    level_text="Lean 4 theorems over the interpreter model (frame-stack machine of pinterpreter.py), for ALL methods and "
-               "ALL states/schedules: (1) in any micro-step of any generator the `started` flag of an instruction flips only "
-               "in the wrapper's step at that instruction's threshold point and only if it is completed, has no threshold, "
-               "is forced, or T x base-factor <= Block Time (Block tag non-empty) / Scope Time (otherwise) — lifted to whole "
-               "ticks (flag and `start` event form; the clocks are constant inside a tick); (2) at the threshold point the "
-               "step starts the instruction in the same tick iff the threshold is not awaited, otherwise nothing changes; "
-               "when a child's visit returns the parent reaches the next child's threshold point without an EndTick "
-               "(successor started in the same tick); main-generator tick-level form; (3) Wait: deadline = start + d - 0.1 "
-               "fixed on entry, loop holds iff tick_time < deadline and not forced, releases otherwise; a Wait's `completed` "
-               "flips only in its loop frame with the deadline reached (all methods, well-formed stacks proved invariant over "
-               "reachable states); for methods without Alarm/Call macro: in every reachable state a Wait completes only in a "
-               "tick with wait_start_time + d - 0.1 <= tick time; arithmetic window: on a regular tick sequence the "
-               "successor starts sigma after the Wait began with d + (Δ-0.1) <= sigma < d + (Δ-0.1) + Δ, i.e. [d, d+Δ] for the "
-               "default Δ = 0.1 s. Tied to the real PInterpreter by differential execution (per-tick node flags, tags, "
-               "events) and checked on the real Engine by an independent oracle.",
-    level_note="Trusted: Lean kernel, the correspondence harness, and the model's inputs: the clocks are inputs of the model "
-               "(what Scope Time / Block Time show when the interpreter runs; their own behaviour is C07), threshold comparison "
-               "is exact (units.compare_values compares Decimal(str(float)); harness uses dyadic / 0.1-grid values), the "
-               "correction 0.1 is modelled as the rational 1/10 (the correspondence avoids durations with d-0.1 on a tick "
-               "boundary; the engine oracle accepts both outcomes there). FINDING (findings.d/C03.json, reproduced on the real "
-               "engine every run, fix proposed in fixes/C03-stale-command-completion.diff): the first clause at full strength "
-               "(C03_threshold_full) is FALSE — a UOD command line with a threshold in an Alarm body starts at once in later "
-               "invocations, because the completion of the previous invocation's command sets `completed` on the re-armed "
-               "node and _is_awaiting_threshold returns False for completed nodes (C03_threshold_counterexample, decided in "
-               "the kernel on the model); proved instead: C03_threshold_partial / threshold_honoured_tick, which carry the "
-               "explicit `completed` escape. 'Starts' = the node's `started` flag (visitor passed the threshold); the "
-               "run-log item's `start` time is the earlier 'Created' state (observed, belongs to C15/C16). RECORDED "
-               "INTERPRETATION: 'the Wait started' = the tick in which the Wait began waiting (wait_start_time, run-log state "
-               "Started, what the repository's tests measure): window [d, d+Δ] proved for Δ = 0.1 s. Measured from the Wait's "
-               "own `started` flag one tick earlier the successor starts ceil(d/Δ)Δ + Δ later (model) — outside the window "
-               "unless d is a multiple of Δ (C03_wait_window_from_own_start_counterexample) and d+2Δ on the real engine for "
-               "d >= 0.3 s (float rounding); the oracle accepts either reading. 'Inside a block' is decided by the global "
-               "Block tag at the moment of evaluation (dynamic), as the code does. PARTIAL: the reachable-state lower bound "
-               "for Wait is proved for methods without Alarm / Call macro (C03_wait_lower_bound_all_methods is kept visible, "
-               "neither proved nor refuted); the window for every tick interval is refuted "
-               "(C03_wait_window_any_interval_counterexample: the correction is a constant 0.1 s) — outside the property's "
-               "quantifier. `Wait: d` with d < 0.1 s never completes (modelled; C02/C15 matter).",
-    technique="Lean 4 proof (guard lemmas over all micro-step branches, inductive invariants lifted through runGen/tick/"
-              "Reachable) + differential correspondence + engine-level oracle",
+    level_text="Lean 4 theorems over the interpreter model (frame-stack machine of pinterpreter.py), for ALL methods and ALL "
+               "states. Clause 1 (never before T): in any micro-step of any generator `started` flips only at the line's own "
+               "threshold point and only if it is completed, has no threshold, is forced, or T x base-factor <= Block clock "
+               "(Block tag set) / Scope clock (otherwise) — lifted to whole ticks (threshold_honoured_tick, event form). "
+               "Clause 2 (no later than the first tick with the clock at T and the predecessor done), over runs with an "
+               "arbitrary environment between resumptions: from the step in which a line is ENTERED (record created; by "
+               "C02 exactly when the previous line's visit returned) the same micro-run reaches its threshold point, every "
+               "resumption with the threshold awaited changes nothing, the first resumption with it not awaited starts the "
+               "line (entered_line_starts_at_first_eligible_run, threshold_run; main visitor over ticks: "
+               "main_threshold_ticks; successor_started_same_tick for the step from a returning line to the next). Clause 3 "
+               "(Wait) on the frame machine: wait_run — a Wait entered at tick time T0 waits through every resumption with "
+               "tick time < T0+d-0.1, completes in the first resumption k whose tick time has reached it, and the next "
+               "line is started in resumption k+1 (k is characterised, not assumed; any method, any environment that does "
+               "not force/reset the Wait); wait_run_window / _default_interval turn the tick times of that run into the "
+               "window: start of the next line within [d-eps, d+0.1+2eps) of the tick the Wait began waiting, for ticks of "
+               "0.1 s up to eps (float rounding, jitter); Pause/Hold remove resumptions while the tick time runs on (lower "
+               "bound unaffected). Also: Wait completes only in its loop frame with the deadline reached (all methods, "
+               "reachable states); reachable-state lower bound for methods without Alarm/Call macro. Tied to the real "
+               "PInterpreter by differential execution, incl. 0.1 s ticks with on-grid durations compared exactly as the "
+               "code's doubles compare them; checked on the real Engine by an independent oracle.",
+    level_note="Trusted: Lean kernel, the correspondence harness, the model's inputs. The clocks are inputs of the model (what "
+               "the Scope/Block Time or accumulator tags show when the interpreter runs; their own behaviour is C07/engine "
+               "level): the volume/CV accumulators exist on the engine oracle (UOD with totalizer + column volume, Base "
+               "L/mL/CV) and in the 0.1 s correspondence stream (accumulator-unit tags fed with the clock values), not as "
+               "separate model state. Floats: the model compares exactly; the 0.1 s stream feeds it the exact rationals of "
+               "the float tick times and, as the Wait parameter, the net double duration (start+float(d))-0.1-start (checked "
+               "to be independent of the start time, else the tie is declared broken) + 1/10, so model and code agree tick "
+               "for tick also for on-grid durations; the run theorem carries an explicit timing error eps. FINDINGS "
+               "(findings.d/C03.json, reproduced every run, fix diffs proposed): (1) a thresholded UOD command in an Alarm "
+               "body starts at once from the 2nd invocation (stale completion sets `completed`; C03_threshold_full refuted by "
+               "C03_threshold_counterexample, proved instead C03_threshold_partial / threshold_honoured_tick with the "
+               "explicit `completed` escape); (2) with Base L/mL/CV the first line of a Block is judged on the enclosing "
+               "scope's accumulator (Block Volume/CV tag refreshed only after the interpreter ran) — engine level, outside "
+               "the model. RECORDED INTERPRETATIONS: 'starts' = `started` flag; 'the Wait started' = the tick it began "
+               "waiting (wait_start_time, run-log state Started, what the repo's tests measure) — from the Wait's own "
+               "`started` flag one tick earlier the window fails unless d is on the grid "
+               "(C03_wait_window_from_own_start_counterexample; a reviewer of the property should decide that reading); "
+               "clause 2 is read as 'conditions true when the interpreter runs in tick k => started in tick k' (a line is "
+               "entered one tick after its predecessor completed, every body ends with EndTick); `Wait: d` with d < 0.1 s "
+               "is skipped by the code (0 ticks accepted; never completes: C02/C15). 'Inside a block' is the Block tag at "
+               "the moment of evaluation; the oracle additionally requires the block clock for lines lexically inside a "
+               "Block. NOT PROVED: the link from the `completed` FLAG of the predecessor to the stack shape of clause 2 for "
+               "arbitrary methods (C02 proves the entering order for sequential methods); the Wait lower bound over "
+               "reachable states for methods with Alarm/Call macro (C03_wait_lower_bound_all_methods kept visible).",
+    technique="Lean 4 proof (guard lemmas over all micro-step branches, run theorems with adversarial environment, inductive "
+              "invariants through runGen/tick/Reachable) + differential correspondence (float-faithful at 0.1 s) + engine oracle",
 )
 MODULE = "OPM.Properties.C03"
 REQUIRED = [
@@ -70,6 +77,9 @@ REQUIRED = [
     "OPM.C03.C03_wait_window_any_interval_counterexample",
     "OPM.C03.C03_threshold_partial", "OPM.C03.C03_threshold_counterexample",
     "OPM.C03.C03_wait_window_from_own_start_counterexample", "OPM.C03.wait_window_from_own_start_on_grid",
+    "OPM.C03.threshold_run", "OPM.C03.entered_line_starts_at_first_eligible_run", "OPM.C03.main_threshold_ticks",
+    "OPM.C03.wait_loop_run", "OPM.C03.wait_successor_started", "OPM.C03.wait_run", "OPM.C03.wait_run_window",
+    "OPM.C03.wait_run_window_default_interval",
 ]
 FEATURES = {"mark", "block", "watch", "alarm", "macro", "wait", "cmd", "thr", "base", "blank"}
 
@@ -227,13 +237,16 @@ def run(ctx: Check) -> int:
                 "changes s/min/h, Waits 0.0625-1.5 s, blocks, watches, alarms, macros, UOD commands; schedules of 15-50 "
                 "ticks of 1/8 s or 1/4 s with generated Scope/Block clock inputs (regular steps, stalls, jumps, block-clock "
                 "restarts), condition tags, command completions and force requests; (b) the same with the default 0.1 s "
-                "interval (Wait durations with d-0.1 off the tick grid); (c) the shared malformed-method stream. "
+                "interval, float-faithful (Wait durations on and off the 0.1 s grid; Base units s/min/h/L/mL/CV); (c) the shared malformed-method stream. "
                 "Non-trivial = a threshold instruction observed waiting and later started, or a Wait observed waiting and "
                 "later completed. Self-tests: clocks shifted by 1/8 s (a), tick times doubled (b) must change the model's "
                 "answers. Oracle: generated + hand-written methods on the real Engine, 60-120 ticks of 0.1 s (2/3) or "
                 "0.125 s (1/3), random Pause/Hold periods and condition-tag changes between ticks; 30% of the 0.1 s cases "
                 "put a Wait into a Macro called 2-3 times or into the body of an Alarm that keeps firing, and the Wait "
-                "window is judged per execution of the Wait.")
+                "window is judged per execution of the Wait, from one origin (the tick it began waiting): [d, d+0.1]; 25% of "
+                "the cases use volume / CV base units on a UOD with totalizer, column volume and the accumulator tags. In "
+                "ticks in which scope/block stacks, Block tag or Base change, a start is judged against the clocks that "
+                "were current at some moment of that tick, restricted by the line's lexical block / Watch scope.")
     corpus = [c for c in load_corpus("C03") if "pcode" in c and "plan" in c]
     run_oracle(ctx, corpus + hand_cases())
     a = gen_corr_cases(ctx, ctx.n(120, 2500), 8)
@@ -246,8 +259,9 @@ def run(ctx: Check) -> int:
     ctx.assumptions = ["clock tags, condition tags and command completion are inputs of the interpreter model",
                        "thresholds / clocks are exactly representable decimals (dyadic or 0.1-grid values)",
                        "oracle: 'inside a block' = Block tag non-empty at the moment the engine evaluates the threshold",
-                       "oracle: Wait window measured in ticks of 0.1 s; ticks in which the interpreter does not run "
-                       "(Pause/Hold) do not count towards 'no later than'"]
+                       "oracle: Wait window measured in ticks of 0.1 s from the tick the Wait began waiting; the Wait reads the "
+                       "engine tick time, which runs on during Pause/Hold; ticks in which the interpreter does not run do not "
+                       "count towards 'no later than'"]
     return ctx.finish(search=lambda c: run_oracle(c, gen_oracle_cases(c, c.n(600, 6000))))
 
 
